@@ -1,19 +1,22 @@
 import RulioProofs.StateFrame
 import RulioProofs.StateMatch
 
-/-! # Search of both states when nothing is expired: a pure scan over the candidate ids -/
+set_option linter.unusedSimpArgs false
+set_option linter.unusedVariables false
+
+/-! # Search of both states when nothing is expired: a pure stScan over the candidate ids -/
 
 /-- the re-match loop of both `search` functions without the expiry branch -/
-def scan (facts : List (String × Obj)) (p : Obj) :
+def stScan (facts : List (String × Obj)) (p : Obj) :
     List String → List (String × Obj × List Bs) → Except LErr (List (String × Obj × List Bs))
   | [], acc => .ok acc
   | i :: rest, acc =>
     match amGet facts i with
-    | none => scan facts p rest acc
+    | none => stScan facts p rest acc
     | some fact =>
       match matchesJ (.obj p) (.obj fact) with
       | .error e => .error e
-      | .ok bss => scan facts p rest (if bss.isEmpty then acc else acc ++ [(i, fact, bss)])
+      | .ok bss => stScan facts p rest (if bss.isEmpty then acc else acc ++ [(i, fact, bss)])
 
 theorem merr_ne_fuel (e : MErr) : merr e ≠ "fuel" := by cases e <;> decide
 
@@ -24,11 +27,11 @@ theorem matchesJ_err_ne_fuel {p d : J} {e : LErr} (h : matchesJ p d = .error e) 
   · injection h with h; subst h; exact merr_ne_fuel _
 
 theorem scan_ne_fuel {facts : List (String × Obj)} {p : Obj} {ids : List String} {acc} :
-    scan facts p ids acc ≠ .error "fuel" := by
+    stScan facts p ids acc ≠ .error "fuel" := by
   induction ids generalizing acc with
-  | nil => simp [scan]
+  | nil => simp [stScan]
   | cons i rest ih =>
-    simp only [scan]
+    simp only [stScan]
     split
     · exact ih
     · split
@@ -43,8 +46,8 @@ theorem amGet_noneExpired {s : St} {now : Int} (hne : NoneExpired s now) {i : St
 
 theorem isearchLoop_scan {s : St} {now : Int} (hne : NoneExpired s now) (p : Obj) : ∀ (f : Nat) (ids : List String) (acc),
     (St.isearchLoop f s p ids now acc = (s, .error "fuel") ∨
-      St.isearchLoop f s p ids now acc = (s, scan s.facts p ids acc)) ∧
-    (ids.length < f → St.isearchLoop f s p ids now acc = (s, scan s.facts p ids acc)) := by
+      St.isearchLoop f s p ids now acc = (s, stScan s.facts p ids acc)) ∧
+    (ids.length < f → St.isearchLoop f s p ids now acc = (s, stScan s.facts p ids acc)) := by
   intro f
   induction f with
   | zero => intro ids acc; exact ⟨Or.inl rfl, fun h => absurd h (Nat.not_lt_zero _)⟩
@@ -54,7 +57,7 @@ theorem isearchLoop_scan {s : St} {now : Int} (hne : NoneExpired s now) (p : Obj
     | nil => exact ⟨Or.inr rfl, fun _ => rfl⟩
     | cons i rest =>
       rw [St.isearchLoop_cons]
-      simp only [scan, List.length_cons, Nat.add_lt_add_iff_right]
+      simp only [stScan, List.length_cons, Nat.add_lt_add_iff_right]
       cases hg : amGet s.facts i with
       | none => exact ih rest acc
       | some fact =>
@@ -65,8 +68,8 @@ theorem isearchLoop_scan {s : St} {now : Int} (hne : NoneExpired s now) (p : Obj
 
 theorem lsearchLoop_scan {s : St} {now : Int} (hne : NoneExpired s now) (p : Obj) : ∀ (f : Nat) (ids : List String) (acc),
     (St.lsearchLoop f s p ids now acc = (s, .error "fuel") ∨
-      St.lsearchLoop f s p ids now acc = (s, scan s.facts p ids acc)) ∧
-    (ids.length < f → St.lsearchLoop f s p ids now acc = (s, scan s.facts p ids acc)) := by
+      St.lsearchLoop f s p ids now acc = (s, stScan s.facts p ids acc)) ∧
+    (ids.length < f → St.lsearchLoop f s p ids now acc = (s, stScan s.facts p ids acc)) := by
   intro f
   induction f with
   | zero => intro ids acc; exact ⟨Or.inl rfl, fun h => absurd h (Nat.not_lt_zero _)⟩
@@ -76,7 +79,7 @@ theorem lsearchLoop_scan {s : St} {now : Int} (hne : NoneExpired s now) (p : Obj
     | nil => exact ⟨Or.inr rfl, fun _ => rfl⟩
     | cons i rest =>
       rw [St.lsearchLoop_cons]
-      simp only [scan, List.length_cons, Nat.add_lt_add_iff_right]
+      simp only [stScan, List.length_cons, Nat.add_lt_add_iff_right]
       cases hg : amGet s.facts i with
       | none => exact ih rest acc
       | some fact =>
@@ -89,11 +92,11 @@ theorem lsearchLoop_scan {s : St} {now : Int} (hne : NoneExpired s now) (p : Obj
 def St.ispec (s : St) (p : Obj) : Except LErr (List (String × Obj × List Bs)) :=
   match s.cands p with
   | .error e => .error e
-  | .ok ids => scan s.facts p ids []
+  | .ok ids => stScan s.facts p ids []
 
 /-- the linear search as a pure function of the state (valid when nothing is expired) -/
 def St.lspec (s : St) (p : Obj) : Except LErr (List (String × Obj × List Bs)) :=
-  scan s.facts p (s.facts.map (·.1)) []
+  stScan s.facts p (s.facts.map (·.1)) []
 
 def St.candsLen (s : St) (p : Obj) : Nat := match s.cands p with | .ok ids => ids.length | .error _ => 0
 
@@ -137,10 +140,10 @@ theorem cands_ne_fuel (s : St) (p : Obj) : s.cands p ≠ .error "fuel" := by
     | nil => simp [TI.search]
     | cons t ts => rw [TI.search_cons]; simp
 
-/-! ## what a scan returns -/
+/-! ## what a stScan returns -/
 
 /-- the entry a candidate id contributes -/
-def hit (facts : List (String × Obj)) (p : Obj) (i : String) : Option (String × Obj × List Bs) :=
+def stHit (facts : List (String × Obj)) (p : Obj) (i : String) : Option (String × Obj × List Bs) :=
   match amGet facts i with
   | none => none
   | some fact =>
@@ -153,12 +156,12 @@ def ScanOK (facts : List (String × Obj)) (p : Obj) (ids : List String) : Prop :
   ∀ i, i ∈ ids → ∀ fact, amGet facts i = some fact → ∃ bss, matchesJ (.obj p) (.obj fact) = .ok bss
 
 theorem scan_eq_of_ok {facts : List (String × Obj)} {p : Obj} {ids : List String} (h : ScanOK facts p ids) (acc) :
-    scan facts p ids acc = .ok (acc ++ ids.filterMap (hit facts p)) := by
+    stScan facts p ids acc = .ok (acc ++ ids.filterMap (stHit facts p)) := by
   induction ids generalizing acc with
-  | nil => simp [scan]
+  | nil => simp [stScan]
   | cons i rest ih =>
     have hrest : ScanOK facts p rest := fun j hj => h j (List.mem_cons_of_mem _ hj)
-    simp only [scan, List.filterMap_cons, hit]
+    simp only [stScan, List.filterMap_cons, stHit]
     cases hg : amGet facts i with
     | none => simp only; exact ih hrest acc
     | some fact =>
@@ -170,11 +173,11 @@ theorem scan_eq_of_ok {facts : List (String × Obj)} {p : Obj} {ids : List Strin
       · simp [hemp]
 
 theorem scan_ok_inv {facts : List (String × Obj)} {p : Obj} {ids : List String} {acc R}
-    (h : scan facts p ids acc = .ok R) : ScanOK facts p ids := by
+    (h : stScan facts p ids acc = .ok R) : ScanOK facts p ids := by
   induction ids generalizing acc with
   | nil => intro i hi; simp at hi
   | cons i rest ih =>
-    simp only [scan] at h
+    simp only [stScan] at h
     intro j hj fact hf
     cases hg : amGet facts i with
     | none =>
@@ -193,20 +196,20 @@ theorem scan_ok_inv {facts : List (String × Obj)} {p : Obj} {ids : List String}
         · subst hj; rw [hg] at hf; injection hf with hf; subst hf; exact ⟨bss, hm⟩
         · exact ih h j hj fact hf
 
-/-- a scan with the cascade pattern never fails and returns the candidates that are stored and name `id` -/
+/-- a stScan with the cascade pattern never fails and returns the candidates that are stored and name `id` -/
 theorem scan_depPat (facts : List (String × Obj)) (id : String) (hid : isVar id = false) (ids : List String) :
-    scan facts (depPat id) ids [] = .ok (ids.filterMap (hit facts (depPat id))) := by
+    stScan facts (depPat id) ids [] = .ok (ids.filterMap (stHit facts (depPat id))) := by
   have := scan_eq_of_ok (facts := facts) (p := depPat id) (ids := ids)
     (fun i _ fact _ => ⟨_, matchesJ_depPat id hid fact⟩) []
   simpa using this
 
 theorem hit_depPat_map (facts : List (String × Obj)) (id : String) (hid : isVar id = false) (ids : List String) :
-    (ids.filterMap (hit facts (depPat id))).map (·.1) =
+    (ids.filterMap (stHit facts (depPat id))).map (·.1) =
       ids.filter (fun i => match amGet facts i with | some fact => depOn fact id | none => false) := by
   induction ids with
   | nil => rfl
   | cons i rest ih =>
-    simp only [List.filterMap_cons, List.filter_cons, hit]
+    simp only [List.filterMap_cons, List.filter_cons, stHit]
     cases hg : amGet facts i with
     | none => simp only; exact ih
     | some fact =>
